@@ -35,7 +35,7 @@ LMAX = tr.LMAX
 # real one raises numpy's UFuncTypeError whenever the complex block has to be added into the real array (witness:
 # corpus/C16/known-real-complex-sum.json).  With the flag set, operands are built with the dtype of the running
 # expansion (complex as soon as a product / ldot / zeros() made it complex), so the two dtypes never meet.
-EXCLUDE_REAL_COMPLEX_MIX = True
+EXCLUDE_REAL_COMPLEX_MIX = False  # R29 repaired in /repo (50df220)
 _EXCLUDED = collections.Counter()
 
 SHAPES = [(), (), (1,), (2,), (3,), (1, 1), (2, 2), (2, 2), (3, 3), (2, 3), (3, 2), (1, 2)]
